@@ -88,8 +88,8 @@ func fullyDeliveredOracle(m *Sim, x *Exec, spec *xferSpec, f *wireFacts, r *xfer
 		ids := msgOfTSN(spec, f, snd)
 		// per message: set of fragments; delivery time of each TSN at the receiver
 		type mstat struct {
-			frags   map[int]uint32
-			nfrags  int
+			frags  map[int]uint32
+			nfrags int
 		}
 		ms := map[int]*mstat{}
 		for tsn, id := range ids {
